@@ -24,6 +24,8 @@ CLAIMED = {
    text="TLC checks for every corpus enum (unit/newtype/struct variants, rename, rename_all, skip, word, from_word, from_none) and every input form (word, string, other literals, list of 0..2 items) that the machine selects exactly the declaratively defined variant or reports the declaratively defined mistake; each behaviour is executed by the real derived enum."),
  "C14": dict(engine="Maps", design_ref="4.5, 5/C14", technique="TLA+ spec of the map conversion loop (Maps.tla) model-checked with TLC against the declarative verdict / entries / bag of mistakes; every behaviour replayed on the five real map instantiations x five value types",
    text="TLC enumerates every item list within bounds for String/Ident/Path keys and checks the loop machine against the declarative reading (succeeds iff all named, keys pairwise distinct after conversion, all values convert; one entry per item; otherwise one leaf per literal, repeat, bad key and bad value under its key); each list is executed on the real HashMap/BTreeMap conversions and hash vs ordered compared."),
+ "C07": dict(engine="Receiver", design_ref="4.6, 5/C07", technique="TLA+ spec (Receiver.tla) with every expect()/unreachable!() of the generated parser as a modelled panic transition whose unreachability TLC checks (NoPanic); all behaviours, incl. hostile inputs, replayed on the real parsers under catch_unwind",
+   text="Every expect of the generated code is a transition to a panic flag in the receiver machine and TLC checks it is unreachable for every declaration and input in bounds (the presence check plus the single early return make it so); the same behaviours - including bodies that are not meta syntax at any depth, bare and name-value attributes, flags in every form, receivers with nothing to forward - are executed by the real parsers with panics caught and reported. Unions / shapes and oversized integers are covered by the Shapes and Targets machines as they are added."),
 }
 
 NOT_YET = "check not built yet (planned, see DESIGN.md section 5)"
